@@ -34,7 +34,7 @@ def gates(tier):
                         "f.project(k)(x)": 1000 * k, "constructors": 1000 * k},
         "shapes": {c: 5 * k for c in ["f:eps_out", "g:eps_in", "eps:eps", "fst_cyclic", "branch:left-smaller", "branch:right-smaller",
                                       "fst_multi_initial", "fst_multi_final", "sr:Q", "sr:Float", "sr:Boolean", "sr:MaxTimes",
-                                      "both-eps-sides", "constructor-freshness", "fst_one_to_many_parallel", "fst@acceptor"]},
+                                      "both-eps-sides", "constructor-freshness", "fst_one_to_many_parallel", "fst@acceptor", "scale:long-string-pairs"]},
         "min_hashseeds": 2,
     }
 
@@ -45,13 +45,37 @@ def gen_case(rng, spec):
     big = rng.random() < 0.5
     f = GA.gen_fst(rng, max_states=4 if big else 2, A=["a", "b"], B=["x", "y"])
     g = GA.gen_fst(rng, max_states=2 if big else 4, A=["x", "y"], B=["u", "v"])
+    longpairs = None
+    if rng.random() < 0.12:
+        # scale: weighted edit transducers (match / substitute / insert / delete at one or two states) applied to strings
+        # of 7-12 tokens: the composed machines have more than a hundred live pair states
+        def edit(A, B, n):
+            arcs = []
+            for i in range(n):
+                j = (i + 1) % n
+                for k, a in enumerate(A):
+                    arcs.append([i, [a, B[k]], j, Fr(rng.randint(2, 4), 16)])
+                    arcs.append([i, [a, B[1 - k]], i, Fr(1, 32)])
+                    arcs.append([i, [a, ""], i, Fr(1, 32)])
+                    arcs.append([i, ["", B[k]], j, Fr(1, 64)])
+            return {"n": n, "names": GA.state_names(rng, n, A, rng.choice(["int", "str", "tuple"])), "A": A, "B": B, "build": "add",
+                    "start": [[0, Fr(1)]], "stop": [[n - 1, Fr(1, 2)]] + ([[0, Fr(1, 4)]] if n > 1 else []), "arcs": arcs}
+
+        f = edit(["a", "b"], ["x", "y"], rng.randint(1, 2))
+        if rng.random() < 0.5:
+            g = edit(["x", "y"], ["u", "v"], rng.randint(1, 2))
+        longpairs = []
+        for _ in range(4):
+            n1 = rng.randint(7, 12)
+            longpairs.append([[rng.choice("ab") for _ in range(n1)], [rng.choice("xy") for _ in range(max(0, n1 + rng.randint(-2, 2)))],
+                              [rng.choice("uv") for _ in range(rng.randint(5, 8))]])
     pairs = []
     npairs = rng.randint(1, 3) if rng.random() < 0.85 else rng.randint(12, 16)  # size threshold: a lexicon-sized list
     for k in range(npairs):
         la = rng.randint(0, 3) if not (npairs > 3 and k in (1, 2)) else rng.randint(10, 12)
         pairs.append([[rng.choice("ab") for _ in range(la)], [rng.choice("xy") for _ in range(rng.randint(0, 3))]])
     return {"f": f, "g": g, "R": rng.choice(SEMIRINGS), "maxlen": 2 if spec.get("tier") == "quick" else 3, "pairs": pairs,
-            "s": [rng.choice("ab") for _ in range(rng.randint(0, 3))], "sw": Fr(rng.randint(1, 4), 8)}
+            "s": [rng.choice("ab") for _ in range(rng.randint(0, 3))], "sw": Fr(rng.randint(1, 4), 8), "longpairs": longpairs}
 
 
 def run_case(case, ctx):
@@ -142,6 +166,7 @@ def run_case(case, ctx):
                                   {"have": v, "want": lib.want_value(R, D(x))})
         # --- composition
         ok, H = ctx.call(APIS[0], case, lambda: F @ G)
+        ok_H = ok
         if ok:
             rh, _, _, _ = lib.fst_ref_from_lib(H, R)
             for x in XA:
@@ -155,6 +180,29 @@ def run_case(case, ctx):
                         ok, v = ctx.call(APIS[0], c2, H, x, z)
                         if ok:
                             ctx.check(APIS[0], same(v, w), "compose(x,z)/value", c2, {"have": v, "want": lib.want_value(R, w)})
+        # --- long string pairs through edit transducers
+        if case.get("longpairs"):
+            ctx.shape["scale:long-string-pairs"] += 1
+            for x, y, z in case["longpairs"]:
+                x, y, z = tuple(x), tuple(y), tuple(z)
+                w = fstref.value(rf, x, y, zero, one, idem)
+                c2 = dict(case, x=list(x), y=list(y))
+                ok, v = ctx.call(APIS[1], c2, F, x, y)
+                if ok:
+                    ctx.check(APIS[1], same(v, w), "fst.__call__/value/long-strings", c2, {"have": v, "want": lib.want_value(R, w)})
+                ok, sec = ctx.call(APIS[2], dict(case, x=list(x)), F, x, None)
+                if ok:
+                    ok, v = ctx.call(APIS[2], c2, sec, y)
+                    if ok:
+                        ctx.check(APIS[2], same(v, w), "fst(x,None)(y)/value/long-strings", c2, {"have": v, "want": lib.want_value(R, w)})
+            if ok_H:
+                for x, y, z in case["longpairs"][:2]:
+                    x, z = tuple(x[:8]), tuple(z)
+                    w = fstref.compose_value(rf, rg, x, z, zero, one, idem)
+                    c2 = dict(case, x=list(x), z=list(z))
+                    ok, v = ctx.call(APIS[0], c2, H, x, z)
+                    if ok:
+                        ctx.check(APIS[0], same(v, w), "compose(x,z)/value/long-strings", c2, {"have": v, "want": lib.want_value(R, w)})
         # --- composition with an acceptor on the right: f @ A == f @ diag(A), i.e. (x, y) -> f(x, y) * A(y)
         ma = {"n": g["n"], "names": g["names"], "alphabet": ["x", "y"], "start": g["start"], "stop": g["stop"],
               "arcs": [[i, ab[0], j, w] for i, ab, j, w in g["arcs"]]}
